@@ -121,7 +121,7 @@ fn main() {
     // process once ONE case has been running for `case_deadline_s` seconds
     // (cases take milliseconds to a few seconds). The driver reads the marker,
     // files the case as "no verdict" and goes on with the next case.
-    let deadline_s = params.u64("case_deadline_s", 240);
+    let deadline_s = params.u64("case_deadline_s", 150);
     if !cfg!(miri) && markers && deadline_s > 0 {
         let _ = std::thread::Builder::new().name("case-deadline".into()).spawn(move || {
             let mut seen = (u64::MAX, std::time::Instant::now());
